@@ -885,7 +885,9 @@ def _register_vector_gradient_rules() -> None:
         For symmetric Q (Q = Q'), this simplifies to 2Qx.
         """
         vec = expr.vector
-        Q = expr.matrix
+        # Sum in floating point: in the caller's own dtype a boolean matrix
+        # would OR and a small unsigned one would wrap around
+        Q = np.asarray(expr.matrix, dtype=np.float64)
 
         # Compute Q + Q' (symmetric part times 2)
         Q_sym = Q + Q.T
